@@ -63,6 +63,18 @@ def shl64 (x s : Nat) : Nat := (x * 2^s) % 2^64
 /-- `uint(x)` / `uint64(x)` of an `int` (two's complement wrap-around for negative x) -/
 def uintOfInt (x : Int) : Nat := (x % 2^64).toNat
 
+/-! ### *big.Int read as an exact integer -/
+
+def bigIsUint64 (x : Int) : Bool := decide (0 ≤ x ∧ x < 2^64)
+/-- `x.Uint64()`: the low 64 bits of |x| (Go: "undefined" when x is not a uint64; this is what the implementation returns) -/
+def bigUint64 (x : Int) : Nat := x.natAbs % 2^64
+def bigSign (x : Int) : Int := Int.sign x
+/-- `x.BitLen()`: length of |x| in bits, 0 for 0 -/
+def bigBitLen (x : Int) : Int := if x = 0 then 0 else (Nat.log2 x.natAbs + 1 : Nat)
+/-- `x.Bit(i)`: bit i of x in two's complement (i < 0 panics in Go: not modelled) -/
+def bigBit (x : Int) (i : Int) : Nat :=
+  if 0 ≤ x then (x.toNat >>> i.toNat) % 2 else ((-x - 1).toNat >>> i.toNat + 1) % 2
+
 /-! ### map[string]V -/
 
 structure GoMap (V : Type) where
